@@ -166,6 +166,46 @@ func evalEProg(p *eProg, q *big.Int, in []*big.Int, bits []int) (vals []*big.Int
 var c12Kinds = []string{"Add", "Add", "Sub", "Sub", "Neg", "Mul", "Mul", "MulNoReduce", "MulConst", "Div", "Inverse", "SqrtSq", "Select", "Lookup2", "Mux",
 	"Reduce", "ReduceStrict", "Sum", "IsZero", "BitsRT", "BitsRTC", "Const"}
 
+// selMotif: an operand with a higher overflow counter than the others in every position of Lookup2 / Mux / Select; with
+// the selector bits (j&1, j>>1) the j-th operand is the one returned; the results feed Sub / IsZero / Mul
+func selMotif() *eProg {
+	p := &eProg{NIn: 2, NBits: 2}
+	add := func(k string, args ...int) int {
+		p.Ops = append(p.Ops, eOp{Kind: k, Args: args, S0: 0, S1: 1})
+		return 2 + len(p.Ops) - 1 - countIsZero(p)
+	}
+	v2 := add("Add", 0, 1)
+	v3 := add("Add", v2, v2)
+	v4 := add("Sub", v3, 0) // another high-overflow value
+	var res []int
+	for j := 0; j < 4; j++ {
+		args := []int{0, 1, 0, 1}
+		args[j] = v3
+		res = append(res, add("Lookup2", args...))
+		args2 := []int{1, 0, 1, 0}
+		args2[j] = v4
+		res = append(res, add("Mux", args2...))
+	}
+	res = append(res, add("Select", v3, 0), add("Select", 1, v4))
+	for _, r := range res {
+		add("Sub", r, 1)
+	}
+	for _, r := range res[:4] {
+		add("Mul", r, 0)
+	}
+	return p
+}
+
+func countIsZero(p *eProg) int {
+	n := 0
+	for _, o := range p.Ops {
+		if o.Kind == "IsZero" {
+			n++
+		}
+	}
+	return n
+}
+
 func genEProg(r *RNG, q *big.Int, maxOps int) *eProg {
 	p := &eProg{NIn: 2 + r.Intn(3), NBits: 2}
 	n := p.NIn
@@ -647,7 +687,7 @@ func runC12(args []string) int {
 		if ru.nl >= 12 && !o.Thorough() {
 			np = 2
 		}
-		for pi := 0; pi < np; pi++ {
+		for pi := 0; pi < np+4; pi++ {
 			var p *eProg
 			var in []*big.Int
 			var bits []int
@@ -656,6 +696,9 @@ func runC12(args []string) int {
 			var pats []string
 			for try := 0; ; try++ {
 				p = genEProg(rng, ru.q, 9)
+				if pi >= np {
+					p = selMotif()
+				}
 				in, pats = nil, nil
 				for i := 0; i < p.NIn; i++ {
 					v, pat := c12Input(rng, ru.q, ru.w, ru.nl)
@@ -663,6 +706,9 @@ func runC12(args []string) int {
 					pats = append(pats, pat)
 				}
 				bits = []int{rng.Intn(2), rng.Intn(2)}
+				if pi >= np {
+					bits = []int{(pi - np) & 1, (pi - np) >> 1}
+				}
 				var ok bool
 				exp, expBits, ok = evalEProg(p, ru.q, in, bits)
 				if ok {
